@@ -64,7 +64,13 @@ CLASS_SIGS = {}  # constructor name -> parameter names (without self); filled by
 
 class KwNorm(ast.NodeTransformer):
     """calls of constructors with a known signature are written in one normal form (all keywords, signature order), so
-    that positional and keyword spellings binding the same parameters read the same"""
+    that positional and keyword spellings binding the same parameters read the same; a conditional EXPRESSION reads like the
+    value an if/else STATEMENT leaves in a name (`if(test){a}else{b}`)"""
+
+    def visit_IfExp(self, node):
+        self.generic_visit(node)
+        return ast.copy_location(ast.Name(
+            id=f"if({ast.unparse(node.test)}){{{ast.unparse(node.body)}}}else{{{ast.unparse(node.orelse)}}}"[:MAXLEN], ctx=ast.Load()), node)
 
     def visit_Call(self, node):
         self.generic_visit(node)
@@ -246,6 +252,9 @@ class Walker:
 
     def stmt(self, st, env):
         env = dict(env)
+        if isinstance(st, ast.AnnAssign) and st.value is not None and isinstance(st.target, ast.Name) and st.simple:
+            # `x: T = e` binds exactly like `x = e`
+            st = ast.copy_location(ast.Assign(targets=[st.target], value=st.value), st)
         if self.depth > 0 and isinstance(st, ast.Return) and st.value is not None and self.helper_of(st.value) is None and not (
             isinstance(st.value, ast.Call) and lib_call(st.value) is None and not simple(st.value)
         ):
